@@ -67,3 +67,22 @@ def fmt(case):
     rs = ",".join(f"{k}={v}" for k, v in regs.items()) or "-"
     ms = ",".join(f"{k}={v}" for k, v in mem.items()) or "-"
     return f"{hx} {addr} {rs} {ms} {fill}"
+
+
+# long counted runs ("all iteration counts"): block moves with I in the thousands.  They are run on the implementation only
+# (the model's memory is a closure chain, quadratic in the run length) and judged by what the documentation says of every
+# counted instruction whatever the data: it ends with I = 0 at the next instruction, a post-increment pointer has advanced by I.
+LONG = [("e324", "X"), ("e325", "Y"), ("eb24", "X"), ("eb25", "Y"), ("d3", None), ("db", None), ("cb", None), ("cf", None)]
+
+
+def long_cases(rng, tier):
+    out = []
+    for _ in range(32 if tier == "thorough" else 8):
+        op, ptr = rng.choice(LONG)
+        bs = bytes.fromhex(op) + bytes([rng.choice([0x10, 0x40, 0x80]), 0x00, 0x00, 0x03, 0x00][: 7 - len(op) // 2])
+        regs = rand_regs(rng)
+        regs["I"] = rng.choice([0x2000, 0x2001, 0x2400, 0x3000, 0x4000] + ([0x8000, 0xFFFF, rng.randrange(0x1000, 0x10000)] if tier == "thorough" else []))
+        regs["X"] = rng.choice([0x20000, 0x40000, 0x80000])
+        regs["Y"] = rng.choice([0x30000, 0x50000, 0x90000])
+        out.append(((bs.hex(), rng.choice([0x1000, 0xC0000]), regs, rand_mem(rng), 0), ptr, len(op) // 2))
+    return out
